@@ -30,6 +30,10 @@ else
 fi
 # hand written driver + suites
 cp "$V"/ocaml/*.ml "$V"/ocaml/suites/*.ml .
+# `s.[i]` is sugar for String.get, which an extracted Coq module named String shadows: spell it out
+for f in "$V"/ocaml/*.ml "$V"/ocaml/suites/*.ml; do
+  sed -i -E "s/([A-Za-z_][A-Za-z0-9_']*)\\.\\[([^]]*)\\]/(Stdlib.String.get \\1 (\\2))/g" "$(basename "$f")"
+done
 {
   echo "let init () ="
   for f in "$V"/ocaml/suites/*.ml; do m=$(basename "$f" .ml); M=$(echo "$m" | sed 's/^./\U&/'); echo "  $M.init ();"; done
@@ -43,5 +47,5 @@ cat > dune <<'EOD'
 (executable (name main) (flags (:standard -w -a)))
 EOD
 [ -f dune-project ] || echo '(lang dune 2.9)' > dune-project
-dune build --profile release ./main.exe 2>&1 | head -50
+dune build --profile release ./main.exe > build.log 2>&1 || { head -60 build.log; rm -f "$B/model_oracle"; exit 1; }
 cp -f _build/default/main.exe "$B/model_oracle.new" && mv -f "$B/model_oracle.new" "$B/model_oracle"
